@@ -56,11 +56,12 @@ impl Src for Concrete {
 }
 
 pub mod interval;
+pub mod angles;
 
 /// Native replay entry (cfg(engeom_verif)): returns Err(list of failed checks) when the violation reproduces.
 pub fn replay(name: &str, vals: Vec<Vec<u8>>) -> Result<String, String> {
     let mut c = Concrete::new(vals);
-    let known = interval::dispatch(name, &mut c);
+    let known = interval::dispatch(name, &mut c) || angles::dispatch(name, &mut c);
     if !known {
         return Ok(format!("unknown harness {}", name));
     }
